@@ -46,6 +46,9 @@ def judge(req, impl, f, prev, hi, i):
     if d2 is not None and i < len(d2) and d2[i] != impl and req.split(' ')[0] in vlib.UNORDERED_OPS:
         DEAD[hi] = i                                  # two direct runs differ: order-dependent effect of a multi-entry call
         return None
+    if len(f) > 2 and f[2] == 'copy_overlap':
+        DEAD[hi] = i                                  # overlapping copy: order-dependent by construction
+        return None
     if vlib.cmp_line(req, impl, w) != 'mismatch':     # order-dependent / hang tolerance, same rules as model comparison
         DEAD[hi] = i                                  # the two runs may legitimately differ from here on
         return None
